@@ -209,6 +209,21 @@ macro_rules! check_typed {
             $v.fail("sum differs from adding left to right from zero", format!("{:?} vs {:?}", view(&wrap(s)), acc));
             return;
         }
+        // the sum must not depend on the kind of iterator it is fed from (adaptors whose size
+        // hint has a lower bound of 0 although they yield every item, owned vs borrowed items)
+        let via: [(&str, $T); 5] = [
+            ("filter", seq.iter().filter(|_| true).cloned().sum()),
+            ("flat_map", seq.chunks(2).flat_map(|ch| ch.iter().cloned()).sum()),
+            ("skip_while + take_while", seq.iter().skip_while(|_| false).take_while(|_| true).cloned().sum()),
+            ("from_fn", { let mut it = seq.iter(); std::iter::from_fn(move || it.next().cloned()).sum() }),
+            ("into_iter (owned)", seq.clone().into_iter().sum()),
+        ];
+        for (name, alt) in via {
+            if !views_close(&view(&wrap(alt.clone())), &view(&wrap(s.clone())), 0.0) {
+                $v.fail(format!("sum depends on the iterator it is fed from | {}", name), format!("{:?} through {} vs {:?} through a slice iterator", view(&wrap(alt)), name, view(&wrap(s))));
+                return;
+            }
+        }
         if seq.is_empty() && (s.real() != 0.0 || s.vars().len() != 0) {
             $v.fail("empty sum is not the variable-free zero", format!("{:?}", view(&wrap(s))));
             return;
@@ -301,7 +316,7 @@ impl Property for C19 {
     }
 
     fn rule(&self) -> String {
-        "random (kind, two numbers with arbitrary derivative content and values of either sign incl. equal values, an alternative derivative content for the first, a float of either sign, a sequence of 0-5 numbers). Oracle: <,<=,>,>=,partial_cmp between numbers and with a float on either side == the float comparison of the values and unchanged when derivatives are replaced, also through the generic number container in all six operand positions (container/container, container/float container, container/float and the mirror images); a == b => Equal; 0-2 pairs from a table of special floats (signed zeros, NaN, infinities, neighbouring doubles, subnormals, MAX) compared in six operand forms against the float comparison; abs flips value and every derivative iff the value is negative; a % b, a % float, float % b == a - b*trunc(a/b) by name in value and derivatives (1e-12) and in value == the float remainder; owned forms == reference forms; sum == left fold from zero by name, empty sum == variable-free zero; x+0, 0+x, x*1, 1*x == x by name; is_zero <=> value 0 and all derivatives 0. Non-trivial: a negative operand, divisor or float.".into()
+        "random (kind, two numbers with arbitrary derivative content and values of either sign incl. equal values, an alternative derivative content for the first, a float of either sign, a sequence of 0-5 numbers). Oracle: <,<=,>,>=,partial_cmp between numbers and with a float on either side == the float comparison of the values and unchanged when derivatives are replaced, also through the generic number container in all six operand positions (container/container, container/float container, container/float and the mirror images); a == b => Equal; 0-2 pairs from a table of special floats (signed zeros, NaN, infinities, neighbouring doubles, subnormals, MAX) compared in six operand forms against the float comparison; abs flips value and every derivative iff the value is negative; a % b, a % float, float % b == a - b*trunc(a/b) by name in value and derivatives (1e-12) and in value == the float remainder; owned forms == reference forms; sum == left fold from zero by name and identical through five kinds of iterator (filter, flat_map, skip_while/take_while, from_fn, owned), empty sum == variable-free zero; x+0, 0+x, x*1, 1*x == x by name; is_zero <=> value 0 and all derivatives 0. Non-trivial: a negative operand, divisor or float.".into()
     }
 
     fn floors(&self, tier: Tier) -> Vec<Floor> {
